@@ -40,6 +40,14 @@ def run(chk):
     solver_whole.guarded(chk, 'C02', lambda: solver_whole.assembled(chk, repo, 'R02.7', 'R02.8', None))
     if not any(not o.ok for o in chk.obls):
         chk.floor('R02.7', 20); chk.floor('R02.8', 25)
+    # ---- R02.9: the surface condition of a static liquid top (y7 = y6 + (4 pi G / g) y2) and the loading values involve the surface gravity and G: what the driver hands to
+    #      cf_apply_surface_bc must be those of the unit system of the solve (a dimensional g next to a non-dimensional G changes the condition imposed, not the Love numbers' formulas)
+    solver_whole.guarded(chk, 'C02', lambda: solver_whole.surface_arguments(chk, repo, 'R02.9'))
+    # ---- R02.10: a loop index narrower than its bound wraps on finer grids: interface / surface rows are then assembled from interior slices
+    from .common import index_width_lint
+    index_width_lint(chk, repo, 'R02.10', ['TidalPy/RadialSolver/**/*.pyx', 'TidalPy/utilities/dimensions/*.pyx'])
+    if not any(not o.ok for o in chk.obls):
+        chk.floor('R02.9', 6)
     chk.floor('R02.1', 6); chk.floor('R02.2', 17); chk.floor('R02.3', 16); chk.floor('R02.4', 40)
     chk.assume('gravity, densities, G > 0; layer solutions arbitrary complex numbers (generic: the denominators y4 of the third solid solution and lambda_2 are non-zero)')
 
